@@ -59,3 +59,36 @@ theorem module_layout_items (d : Definition) (cfg : Cfg) (items : List Item) (h 
 def recLayout (cap A : Nat) : Nat × Nat := ((cap + A - 1) / A * A, A)
 
 end Truc.Gen
+
+namespace Truc
+
+/-- a spec of a definition: its data are a variant's ids in id order; the added fields are among them; the removed ones are data of the definition -/
+theorem spec_of_mem (d : Definition) (s : Gen.Spec) (hs : s ∈ Gen.specs d) :
+    ∃ v ∈ d.variants, s.data = (Gen.sortIds v).map (Gen.mkD d.defs) ∧ s.plus.Sublist s.data ∧
+      ∀ x ∈ s.minus, ∃ id, x = Gen.mkD d.defs id := by
+  suffices h : ∀ (vs : List (List Nat)) (k : Nat) (prev : Option (List Nat)), s ∈ Gen.specs.go d d.maxTypeAlign vs k prev →
+      ∃ v ∈ vs, s.data = (Gen.sortIds v).map (Gen.mkD d.defs) ∧ s.plus.Sublist s.data ∧ ∀ x ∈ s.minus, ∃ id, x = Gen.mkD d.defs id from
+    h d.variants 0 none hs
+  intro vs
+  induction vs with
+  | nil => intro k prev h; simp [Gen.specs.go] at h
+  | cons v rest ih =>
+    intro k prev h
+    unfold Gen.specs.go at h
+    simp only [List.mem_cons] at h
+    rcases h with rfl | h
+    · refine ⟨v, List.mem_cons_self, rfl, ?_, ?_⟩
+      · cases prev with
+        | none => exact List.Sublist.refl _
+        | some p => exact List.filter_sublist.map _
+      · intro x hx
+        cases prev with
+        | none => simp at hx
+        | some p =>
+          simp only [List.mem_map] at hx
+          obtain ⟨id, _, rfl⟩ := hx
+          exact ⟨id, rfl⟩
+    · obtain ⟨v', hv', h1, h2, h3⟩ := ih _ _ h
+      exact ⟨v', List.mem_cons_of_mem _ hv', h1, h2, h3⟩
+
+end Truc
